@@ -1,6 +1,6 @@
 (* Tie lemma for the translated scalar-multiplication loop of min_curve (scalar_mul_both, both CT variants). *)
 Require Import ZArith List Bool Lia.
-From D377 Require Import Base.FieldSec Model.Decaf Model.Sqrt Model.GenPrelude Tie.Loops.
+From D377 Require Import Base.FieldSec Model.Decaf Model.Sqrt Model.GenPrelude Tie.Loops Tie.Curve.
 From D377 Require Generated.Curve.
 Import ListNotations.
 Module G := Generated.Curve.
@@ -24,6 +24,6 @@ Section Tie.
     unfold limb_bits. change 64%Z with (Z.of_nat 64). rewrite zrange_seq, !fold_left_map.
     match goal with |- ?l = (let '(_, _) := ?r in _) => replace r with l; [destruct l; reflexivity|] end.
     apply fold_left_ext. intros [acc' ins'] i.
-    rewrite bit_test. destruct CT; reflexivity.
+    rewrite bit_test, ?(@tie_min_add AF), ?(@tie_min_double AF). destruct CT; reflexivity.
   Qed.
 End Tie.
